@@ -14,7 +14,7 @@ func init() {
 	register(&Property{
 		ID:          "C04",
 		Engines:     []string{"cfg", "lockset"},
-		Explanation: "Flush liveness rests on the invariant 'queue non-empty => write interest registered'; decided as code shape: every enqueue is followed by arming before the mutex is released (O1); write interest is disarmed only under the mutex on the queue-empty edge (O2); the isWAdded flag and the epoll registration change together behind the !closed test (O3); the epoll interest masks carry the required bits (O4); the write-event edge of the poller reaches flush and nothing else calls flush (O5); the one-shot re-arm chooses read+write exactly on the queue-non-empty edge and reads the queue under the mutex (O6); a registration issued after a user callback reconciles a backlog the callback created (O7). The re-arm sites reach the kernel registration without the isWAdded guard (O6, O7); flush gives up with a non-empty queue only on the EAGAIN edge (O9). The disarm helper clears the flag on every path on which it found it set (O10); an explicit success return of flush's head-writers is behind the pop of the head (O11). No empty entry is queued (O13); flush's queue-empty returns disarm (O14); writeList and isWAdded are guarded by Conn.mux on every access (O15); resetRead only next to isWAdded = false or in the queue-decided re-arm (O16). The queue test behind a disarm is not stale (O2).",
+		Explanation: "Flush liveness rests on the invariant 'queue non-empty => write interest registered'; decided as code shape: every enqueue is followed by arming before the mutex is released (O1); write interest is disarmed only under the mutex on the queue-empty edge (O2); the isWAdded flag and the epoll registration change together behind the !closed test (O3); the epoll interest masks carry the required bits (O4); the write-event edge of the poller reaches flush and nothing else calls flush (O5); the one-shot re-arm chooses read+write exactly on the queue-non-empty edge and reads the queue under the mutex (O6); a registration issued after a user callback reconciles a backlog the callback created (O7). The re-arm sites reach the kernel registration without the isWAdded guard (O6, O7); flush gives up with a non-empty queue only on the EAGAIN edge (O9). The disarm helper clears the flag on every path on which it found it set (O10); an explicit success return of flush's head-writers is behind the pop of the head (O11). No empty entry is queued (O13); flush's queue-empty returns disarm (O14); writeList and isWAdded are guarded by Conn.mux on every access (O15); resetRead only next to isWAdded = false or in the queue-decided re-arm (O16). The queue test behind a disarm is not stale (O2). A disarm on the queue-empty edge has no second condition (O17).",
 		NotCovered:  "that the kernel delivers the event; eventual delivery itself; edge-triggered timing",
 		Run:         runC04,
 	})
